@@ -12,6 +12,7 @@ Kernel 2: the whole real pipeline with wrap_python / wrap_lua symbolic at librar
 """
 import json
 import os
+import re
 import sys
 
 import z3
@@ -248,6 +249,10 @@ def names_of(libname, decl_index):
                 inner = containers + ((decls.index(text),) if text in decls else ())
                 if kind == "class" and text in decls and sub.fmtdict.inlocal("F_derived_name"):
                     table[decls.index(text)].setdefault("f-type", set()).add(sub.fmtdict.F_derived_name)
+                if kind == "class":
+                    sidx = [i_ for i_, dt in enumerate(decls) if re.match(r"^struct\s+%s\b" % re.escape(sub.name), dt)]
+                    if sidx and sub.fmtdict.inlocal("C_type_name"):
+                        table[sidx[0]].setdefault("c-type", set()).add(sub.fmtdict.C_type_name)
                 visit(sub, inner)
         visit(r.library)
         overloaded = set()
@@ -359,6 +364,12 @@ def check_run(libname, wrap_c, wrap_f, decl_index, decl_cf, cfg, res):
         dtext = decl_nodes(pipeline.load_yaml(cc.LIBS[libname]))[decl_index]["decl"]
         dflag = {"c": decl_cf.get("wrap_c", wrap_c), "fortran": decl_cf.get("wrap_fortran", wrap_f),
                  "python": cfg["decl.wrap_python"], "lua": cfg["decl.wrap_lua"]}
+        if not dflag["c"]:
+            # a struct whose C wrapper is off (its Fortran derived type does not need the C copy)
+            ctext0 = "\n".join(t for f, t in files.items() if kind_of(f) == "c")
+            for nm in mine.get("c-type", []):
+                if re.search(r"\b%s\b" % re.escape(nm), ctext0):
+                    return "declaration %r has wrap_c off but its C type %s appears in the C output" % (dtext, nm)
         if not dflag["c"] and not dflag["fortran"]:
             # a container (namespace / class) whose C wrapper is off: nothing declared inside it may reach the C output
             ctext = "\n".join(t for f, t in files.items() if kind_of(f) == "c")
@@ -659,6 +670,9 @@ def main():
         for i in range(nd):
             variants = [((True, True), {}), ((True, True), {"wrap_fortran": False}),
                         ((True, True), {"wrap_c": False, "wrap_fortran": False})]
+            if re.match(r"^struct\b", decl_nodes(pipeline.load_yaml(cc.LIBS[lib]))[i]["decl"]):
+                # a struct's Fortran type stands alone: the C copy can be switched off by itself
+                variants.append(((True, True), {"wrap_c": False}))
             if tier == "thorough":
                 variants += [((True, False), {}), ((False, False), {}), ((False, False), {"wrap_c": True, "wrap_fortran": True}),
                              ((True, False), {"wrap_fortran": True})]
